@@ -94,6 +94,8 @@ def cases(tier: str, seed: int) -> list[dict]:
                 out.append({"load": load, "sim": sim, "et": et, "dim": dim, "form": ["const", "array", "callable"][(k + r) % 3],
                             "sel": ["exact", "stray", "partial"][(k // 2 + r) % 3]})
                 k += 1
+                if load in ("line", "surf") and (k + r) % 2 == 0:
+                    out.append({"load": load, "sim": sim, "et": et, "dim": dim, "form": ["const", "array", "callable"][(k + r) % 3], "sel": "bulk"})
         for et in gm.ET_1D:
             for theory in ("EB", "Timo"):
                 for bdim in (1, 2, 3):
@@ -280,6 +282,14 @@ def run_case(case: dict, ctx: Ctx) -> None:
         # any node may be added as long as no element of the loaded dimension is completed by it — checked through the oracle itself
         extra = rng.choice(others, min(2, len(others)), replace=False) if len(others) and load != "volume" else np.array([], int)
         sel_nodes = np.concatenate([nodes, extra])
+    elif sel == "bulk" and load in ("line", "surf"):
+        # a region selection ("everything with x > ..."): the loaded edge / face plus every node that belongs to no element of the
+        # loaded dimension at all (interior nodes) - usually more nodes than the whole boundary group has
+        ldim = {"line": 1, "surf": dim - 1}[load]
+        in_ldim = np.unique(np.concatenate([g.connect.ravel() for g in mesh.Get_list_groupElem(ldim)] + [np.array([], int)]))
+        extra = np.setdiff1d(np.setdiff1d(used, nodes), in_ldim)
+        sel_nodes = np.concatenate([nodes, extra])
+        ctx.event("bulk-selection-larger-than-a-boundary-group" if any(len(sel_nodes) >= g.Nn for g in mesh.Get_list_groupElem(ldim)) else "bulk-selection-small")
     elif sel == "partial" and load in ("line", "surf") and dim == 2:
         pass  # whole edge is the smallest exactly integrable region here; partial selections are covered by 'stray'
 
@@ -450,6 +460,26 @@ def run_point(case, ctx, rng, simu, mesh, thickness):
     ctx.check("point-load-even-split", float(np.abs(fvec[nodes, 0] - tot / n).max() / abs(tot)), 1e-12, key + "/split")
     outside = np.setdiff1d(np.arange(mesh.Nn), nodes)
     ctx.check("stray-nodes-ignored", float(np.abs(fvec[outside]).max() / abs(tot)), 1e-14, key + "/stray")
+    # a nodal array of intensities, owned by the caller and used again: for a second unknown in the same call, and once more
+    # after Bc_Init (a load re-applied at every step of a loop). Every use gives the same nodal forces; the array is left alone.
+    vals = rng.uniform(1, 5, n)
+    keep = vals.copy()
+    two = unknowns[:2] if len(unknowns) > 1 else unknowns[:1]
+    with ctx.monitored("no-exception", key + "/array/raised"):
+        with quiet():
+            simu.Bc_Init()
+            simu.add_neumann(nodes, [vals] * len(two), list(two))
+            f1 = simu.Bc_vector_Neumann(_pt(simu)).reshape(mesh.Nn, dof_n).copy()
+            simu.Bc_Init()
+            simu.add_neumann(nodes, [vals], [unknowns[0]])
+            f2 = simu.Bc_vector_Neumann(_pt(simu)).reshape(mesh.Nn, dof_n).copy()
+    ctx.require("caller-array-untouched", np.array_equal(vals, keep), key + "/array/caller-array-modified", before=keep, after=vals)
+    want = keep / n      # the intensities given are shared out over the selected nodes like a constant is
+    sc = np.abs(want).max()
+    ctx.check("point-load-array", float(np.abs(f1[nodes, 0] - want).max() / sc), 1e-12, key + "/array/first-unknown")
+    if len(two) > 1:
+        ctx.check("point-load-array", float(np.abs(f1[nodes, 1] - want).max() / sc), 1e-12, key + "/array/second-unknown-same-array")
+    ctx.check("point-load-array", float(np.abs(f2[nodes, 0] - want).max() / sc), 1e-12, key + "/array/used-again-after-Bc_Init")
     ctx.describe(f"point/{sim}/{et}", True, load="point", sim=sim, et=et, n_nodes=n, total=tot)
 
 
